@@ -78,12 +78,29 @@ uint64_t g_calls_total = 0;
 void (*g_cc_violation)(const char *, const char *) = nullptr;
 
 Preempt g_pre;
+Watch g_watch, g_last_residue;
 #include <signal.h>
 #include <ucontext.h>
 static void
 on_step(int, siginfo_t *, void *uc_)
 {
         ucontext_t *uc = (ucontext_t *) uc_;
+        if (g_watch.active) {
+                const uint64_t rip = (uint64_t) uc->uc_mcontext.gregs[REG_RIP];
+                if ((char *) rip == sim_call_after) {
+                        g_watch.active = 0;
+                        uc->uc_mcontext.gregs[REG_EFL] &= ~0x100ll;
+                        return;
+                }
+                g_watch.steps++;
+                const bool there = *(volatile uint64_t *) g_watch.addr == g_watch.val;
+                if (there && !g_watch.hit_rip)
+                        g_watch.hit_rip = g_watch.prev_rip ? g_watch.prev_rip : 1;
+                if (!there)
+                        g_watch.hit_rip = 0; // overwritten again: we want the write that survives
+                g_watch.prev_rip = rip;
+                return;
+        }
         if (!g_pre.stepping) {
                 uc->uc_mcontext.gregs[REG_EFL] &= ~0x100ll;
                 return;
@@ -154,7 +171,11 @@ tcallv(const char *name, void *fn, int n, const uint64_t *v)
                 p.canary[k] = splitmix64(s) | 0x0100000000000001ull;
         p.flags = g_callctx.scrub ? 3 : 0;
         g_callctx.name = name;
-        if (g_pre.armed && !g_pre.stepping && !g_pre.fired && preemptible(name)) {
+        if (g_watch.call_no && nonce == g_watch.call_no) {
+                g_watch.active = 1;
+                g_watch.hit_rip = g_watch.prev_rip = g_watch.steps = 0;
+                p.flags |= 4;
+        } else if (g_pre.armed && !g_pre.stepping && !g_pre.fired && preemptible(name)) {
                 g_pre.count = 0;
                 g_pre.stepping = 1;
                 p.flags |= 4;
